@@ -1,10 +1,12 @@
 """C26 White list behaves as a bounded set (software implementation: update shapes; radio-backed: delegation)."""
 from .lib.match import *
 from .lib.linear import Lin, lin
+from .lib.witness import PRELUDE, run_witness
 
 SELECT = r'^bluetoe::link_layer::details::white_list_implementation::'
 UNITS = lambda u: u in ('w_inst_ll',) or u.startswith('t_link_layer_white')
 WL = 'bluetoe::link_layer::details::white_list_implementation::'
+EXACT = ('implementation-selection',)   # decided by the compiler on witness declarations: not gated by the golden structure
 META = {
     'level': 'update-shape rules on the software white list white_list_implementation<Size, true>: the set is the prefix addresses_[0, Size - free_size_); each rule is a step of the induction that makes '
              'this prefix a duplicate-free set of at most Size addresses: membership searches exactly that prefix; add returns false only when the address is absent and free_size_ == 0, returns true without '
@@ -82,12 +84,35 @@ def deref_of(n):
     return None
 
 
+def selection_witness(chk):
+    src = PRELUDE + '''#include <bluetoe/white_list.hpp>
+namespace wit {
+    namespace ll = bluetoe::link_layer;
+    template < std::size_t N > struct radio { static constexpr std::size_t radio_maximum_white_list_entries = N; };
+    struct link {};
+    template < std::size_t Size, std::size_t Hw >
+    struct uses_software : std::is_base_of< ll::details::white_list_implementation< Size, true, radio< Hw >, link >, typename ll::white_list< Size >::template impl< radio< Hw >, link > > {};
+    template < std::size_t Size, std::size_t Hw >
+    struct uses_radio : std::is_base_of< ll::details::white_list_implementation< Size, false, radio< Hw >, link >, typename ll::white_list< Size >::template impl< radio< Hw >, link > > {};
+}
+'''
+    obl = []
+    for size, hw, soft in ((8, 0, True), (8, 4, True), (5, 2, True), (1, 0, True), (9, 8, True), (8, 8, False), (4, 8, False), (1, 1, False)):
+        key = 'select:%d:%d' % (size, hw)
+        # the property needs a capacity of Size: the software list always has it, the radio-backed list only if the radio holds Size entries
+        src += 'VERIF_ASSERT( "%s", wit::uses_software< %d, %d >::value != wit::uses_radio< %d, %d >::value && ( wit::uses_software< %d, %d >::value || %d >= %d ) );\n' % (key, size, hw, size, hw, size, hw, hw, size)
+        obl.append((key, 'white_list<%d> on a radio with %d hardware entries has room for %d addresses (%s)' % (size, hw, size, 'software implementation' if soft else 'either implementation')))
+    run_witness(chk, 'implementation-selection', 'c26_select', src, obl)
+
+
 def run(chk, facts, tier):
     chk.rule('membership-over-live-prefix', 'is_in_white_list(addr) is find(begin(addresses_), begin(addresses_) + (Size - free_size_), addr) != that end', floor=1)
     chk.rule('add-shape', 'add_to_white_list: `return false` only when the address is absent and free_size_ == 0; a member returns true without any store; otherwise addresses_[Size - free_size_] = addr and one --free_size_', floor=1)
     chk.rule('remove-shape', 'remove_from_white_list: finds in the live prefix, returns false exactly when not found, overwrites the found slot with the last live slot, one ++free_size_', floor=1)
     chk.rule('free-size-writers', 'free_size_ is written only by the constructor and clear_white_list (= Size), add (--) and remove (++)', floor=4)
     chk.rule('filter-shape', 'is_connection_request_in_filter / is_scan_request_in_filter return !own_filter_flag || is_in_white_list(addr); the setters store, the getters return, their own flag', floor=6)
+    chk.rule('implementation-selection', 'white_list<Size>::impl<Radio, LinkLayer> is the radio-backed implementation only if the radio holds at least Size entries, else the software list: in both cases a set of at most Size addresses (static_assert witnesses over Size x hardware entries)', floor=8)
+    selection_witness(chk)
     chk.rule('radio-delegation', 'the radio-backed white list forwards each operation to radio_<same name>(same arguments) and returns its result', floor=10)
 
     # --- membership
